@@ -52,6 +52,7 @@ func checkC05(r *Run) propMeta {
 	checkCountedLastElement(r, cg, reach)
 	checkValueContainersUnwritten(r, cg, reach)
 	checkConstantIndexGuarded(r, cg, reach)
+	checkLoopProgress(r, cg, reach)
 	checkLockFreeMappersReadOnly(r, r.Pkg("drivers/pg/pgutil"))
 	r.Floor("C05-R1-map-order", 12)
 	return meta
